@@ -64,7 +64,8 @@ TENSOR_BIASED = ["admbase-dtshift", "admbase-dtlapse",
                  "admbase-shift", "admbase-shift", "admbase-metric",
                  "hydrobase-vel", "ml_bssn-ml_mom", "admbase-lapse",
                  "hydrobase-rho", "mythorn-mypair", "admbase-curv",
-                 "weylscal4-psi4r_group"]
+                 "weylscal4-psi4r_group", "weylscal4-psi4i_group"]
+WEYL_PAIR = ["weylscal4-psi4r_group", "weylscal4-psi4i_group"]
 
 op_strategy = st.fixed_dictionaries(dict(
     varsel=st.one_of(st.just([]), st.lists(K, min_size=1, max_size=3),
@@ -95,6 +96,10 @@ def history(draw, max_ops):
             pair.reverse()
         sim["groups"] = pair + [g for g in sim["groups"]
                                 if g not in pair][:2]
+    elif draw(st.integers(0, 5)) == 0:
+        # both halves of the tensor Weyl_Psi (different thorn output groups)
+        sim["groups"] = WEYL_PAIR + [g for g in sim["groups"]
+                                     if g not in WEYL_PAIR][:2]
     ops = draw(st.lists(op_strategy, min_size=3, max_size=max_ops))
     return dict(sim=sim, ops=ops)
 
@@ -345,6 +350,12 @@ GENERIC = [
               dict(_op([1], [0, 1, 2]), dtpair=1),
               dict(_op([0], [0, 1, 2, 3], split=False), dtpair=2),
               dict(_op([0], [0, 1, 2, 3]), dtpair=1)]),
+    # the two-component tensor Weyl_Psi: request pool for these groups is
+    #   0 Weyl_Psi4r, 1 Weyl_Psi4i, 2 alpha, 3 Weyl_Psi, 4 Weyl_Psi
+    dict(sim=_sim(False, WEYL_PAIR + ["admbase-lapse"], False, ONE,
+                  lens=(3,), overlaps=(0,)),
+         ops=[_op([1], [1]), _op([3], [0, 1, 2]), _op([3], [0, 1, 2, 3]),
+              _op([], [0, 1, 2, 3]), _op([3, 2], [0, 1], split=False)]),
     dict(sim=_sim(True, ["admbase-shift", "admbase-dtshift"], True, RECT8,
                   lens=(2,), overlaps=(0,)),
          ops=[dict(_op([1], [0, 1], split=False), dtpair=1),
